@@ -1,13 +1,22 @@
 /-
 C10 — search limits bound the work and never alter an answer, only stop it.
 
-`TermM` models `TerminationModel` (`Model/Instance.lean`); the clock of a runtime limit is the
-function `base + per * iteration`.  (Loop-level theorems are added from `Proofs/SearchLimits`.)
+`TermM` models `TerminationModel` (`Model/Instance.lean`).  The clock of a runtime limit in the
+configured model is the *affine* function `base + per * iteration` nanoseconds — the harness's virtual
+clock (hook in `TerminationModel`), which is what makes a runtime limit replayable; the loop-level
+statement `runtime_stops_at_next_scheduled_check_any_clock` holds for an arbitrary clock function.
+Loop-level theorems (`Proofs/SearchLimits`) are for `run_a_star` / `run_vertex_oriented`; the
+edge-oriented wrapper has its own section (it adds its pseudo-steps to `iterations` and, when the two
+edges are adjacent, runs no search and consults no limit).  Each sub-search of the k-shortest-path
+algorithms is a `run_vertex_oriented` call, so the theorems apply to it; how a limit hit of a
+sub-search surfaces is C13's (`Props/C13.lean`).
 -/
 import Compass.Proofs.Num
 import Compass.Model.Instance
 import Compass.Proofs.SearchLimits
 import Compass.Proofs.Build
+import Compass.Proofs.SearchTermination
+import Compass.Proofs.SearchRoute
 
 namespace Compass
 namespace C10
@@ -79,22 +88,65 @@ theorem iterations_le_limit (c : Config α) {L : Nat} (hl : Leaf (.iters L) c.te
     runAStar c.inst source target sched = runAStar c.inst source target (sched.take L) :=
   ⟨fun _ h => (config_iterations_le_limit c hl h).1, config_runAStar_take c hl source target sched⟩
 
-/-- With a solution-size limit `S` the tree never exceeds `S` by more than one vertex's degree `D`
-(and a tree that is returned has at most `S` entries). -/
+/-- With a solution-size limit `S` anywhere in the configured termination model, `D` a bound on the
+number of incident edges of a vertex (the out-degree, in a reverse search the in-degree):
+(1) DURING a run — at every loop head the run reaches, returning or not, in particular the one at
+which the limit fires — the tree has at most `S + D` entries: it never exceeds the limit by more than
+one vertex's degree;
+(2) inside an expansion, after the edges `es` of the expanded vertex have been relaxed, it has at most
+`S + |es|` entries;
+(3) a tree that is returned has at most `S` entries (the result is produced at a loop head that
+passed the test). -/
 theorem size_le_limit_plus_degree (c : Config α) {S D : Nat} (hl : Leaf (.size S) c.term)
-    (hD : ∀ v, (c.inst.incident v).length ≤ D) {source : Nat} {target : Option Nat}
-    {sched : List Nat} {s : SState α} (hrun : runAStar c.inst source target sched = .ok s) :
-    s.solSize ≤ S + D ∧ s.solSize ≤ S :=
-  config_size_le_limit_plus_degree c hl hD hrun
+    (hD : ∀ v, (c.inst.incident v).length ≤ D) (source : Nat) (target : Option Nat) :
+    (∀ (pre : List Nat) (f0 : α) (h : SState α),
+      Reach c.inst source target pre (initState source f0) h → h.solSize ≤ S + D) ∧
+    (∀ (pre : List Nat) (f0 : α) (h : SState α),
+      Reach c.inst source target pre (initState source f0) h →
+      c.term.test h.solSize h.iters = .ok () →
+      ∀ (hasTarget : Bool) (lastEdge : Option Nat) (st : List α) (v : Nat) (es : List Nat)
+        (s2 : SState α), relaxAll c.inst hasTarget lastEdge st es (popped h v) = .ok s2 →
+        s2.solSize ≤ S + es.length) ∧
+    (∀ (sched : List Nat) (s : SState α),
+      runAStar c.inst source target sched = .ok s → s.solSize ≤ S) := by
+  have hS : SizeLimit c.inst S := sizeLimit_of_leaf (I := c.inst) rfl hl
+  refine ⟨fun pre f0 h hr => ?_, fun pre f0 h _ hterm hasT le st v es s2 hrel => ?_,
+    fun sched s hrun => (config_size_le_limit_plus_degree c hl hD hrun).2⟩
+  · rcases reach_size_le hS hD hr with rfl | hle
+    · cases hr
+      simp [initState]
+    · exact hle
+  · exact relaxAll_size_le hS hterm hrel
 
 /-- With a time budget exhausted from iteration `i₀` on, the search stops at the next scheduled
-check: no result is returned after `nextCheck freq i₀` iterations. -/
+check: no result is returned after `nextCheck freq i₀` iterations.  The clock of the configured model
+is affine, `baseNs + perNs * iteration` (the virtual clock of the harness); for an arbitrary clock see
+`runtime_stops_at_next_scheduled_check_any_clock`. -/
 theorem runtime_stops_at_next_scheduled_check (c : Config α) {limitNs freq baseNs perNs i₀ : Nat}
     (hl : Leaf (.runtime limitNs freq baseNs perNs) c.term) (hf : 0 < freq)
     (hex : ∀ i, i₀ ≤ i → limitNs < baseNs + perNs * i) {source : Nat} {target : Option Nat}
     {sched : List Nat} {s : SState α} (hrun : runAStar c.inst source target sched = .ok s) :
     s.iters ≤ nextCheck freq i₀ :=
   (config_runtime_stops_at_next_check c hl hf hex hrun).1
+
+/-- The same for an arbitrary clock: any instance whose limit function refuses a loop head whenever
+the iteration is a multiple of `freq` and the clock reading `clock iteration` exceeds `limit` (the
+code's `iteration % frequency == 0 && elapsed > limit`, whatever else the limit function tests).  If
+the budget is exhausted from iteration `i₀` on — for a monotone clock: as soon as it is exhausted at
+`i₀` — no result is returned after the first multiple of `freq` that is `≥ i₀`. -/
+theorem runtime_stops_at_next_scheduled_check_any_clock {I : Inst α} {freq i₀ limit : Nat}
+    (clock : Nat → Nat) (hf : 0 < freq)
+    (hI : ∀ sz it, it % freq = 0 → limit < clock it → ∃ k, I.term sz it = .error k)
+    (hex : (∀ i, i₀ ≤ i → limit < clock i) ∨ (Monotone clock ∧ limit < clock i₀))
+    {source : Nat} {target : Option Nat} {sched : List Nat} {s : SState α}
+    (hrun : runAStar I source target sched = .ok s) :
+    s.iters ≤ nextCheck freq i₀ ∧ (target ≠ some source → s.iters < nextCheck freq i₀) := by
+  have hex' : ∀ i, i₀ ≤ i → limit < clock i := by
+    rcases hex with h | ⟨hm, h0⟩
+    · exact h
+    · exact fun i hi => lt_of_lt_of_le h0 (hm hi)
+  exact SearchLimits.runtime_stops_at_next_check hf
+    (fun sz it hmod hi => hI sz it hmod (hex' it hi)) hrun
 
 /-- A search that hits a limit returns the explicit `terminated` error naming the limit(s) that
 fired at that loop head — never a route, a tree or "no path". -/
@@ -125,6 +177,406 @@ theorem success_monotone_in_limits (c : Config α) (m₂ : TermM)
     (h : runVertexOriented c.inst source target sched = .ok r) :
     runVertexOriented ({ c with term := m₂ } : Config α).inst source target sched = .ok r :=
   config_success_monotone c m₂ hmono h
+
+end
+
+/-! ### The edge-oriented wrapper (`search_algorithm::run_edge_oriented`, `Config.runEdge`)
+
+The wrapper runs one vertex-oriented search (from the origin edge's head to the destination edge's
+tail, or without destination) under the configured limits and adds its own pseudo-steps to the
+iteration count (`+ 1` for the origin edge, `+ 1` for the destination edge).  When the destination
+edge starts where the origin edge ends it runs no search at all and consults no limit: it reports
+`iterations = 1` whatever the limits (even `iterations` limit 0).  Tree-size and runtime statements
+are about the inner search (the theorems above apply to it verbatim); they are not restated for the
+wrapper. -/
+
+section
+open SearchLimits
+variable {α : Type} [Field α] [LinearOrder α] [IsStrictOrderedRing α] [Lit α] [LawfulLit α]
+
+/-- a returned vertex-oriented result performed at most `L` expansions -/
+theorem runVertex_iterations_le_limit (c : Config α) {L : Nat} (hl : Leaf (.iters L) c.term)
+    {source : Nat} {target : Option Nat} {sched : List Nat} {r : AlgResult α}
+    (h : c.runVertex source target sched = .ok r) : r.iterations ≤ L := by
+  obtain ⟨res, hres, _, _, hit⟩ := SearchRoute.runVertex_ok h
+  rw [hit]
+  have hra : runAStar c.inst source target sched = .ok res.final := by
+    unfold runVertexOriented at hres
+    split at hres
+    · cases hres
+    · rename_i s hs
+      cases target with
+      | none => cases hres; exact hs
+      | some t =>
+        simp only at hres
+        split at hres
+        · cases hres
+        · cases hres; exact hs
+  exact (config_iterations_le_limit c hl hra).1
+
+/-- With an iteration limit `L` the edge-oriented wrapper reports at most `L + 2` iterations: at most
+`L` expansions of the inner search plus its own two pseudo-steps. -/
+theorem edge_oriented_iterations_le_limit (c : Config α) {L : Nat} (hl : Leaf (.iters L) c.term)
+    {source : Nat} {target : Option Nat} {sched : List Nat} {r : AlgResult α}
+    (h : c.runEdge source target sched = .ok r) : r.iterations ≤ L + 2 := by
+  unfold Config.runEdge at h
+  simp only at h
+  cases he : c.edges[source]? with
+  | none => simp only [he] at h; cases h
+  | some e1 =>
+    simp only [he] at h
+    cases target with
+    | none =>
+      simp only at h
+      cases hr : c.runVertex e1.dst none sched with
+      | error k => simp only [hr] at h; cases h
+      | ok r' =>
+        simp only [hr] at h
+        cases h
+        have := runVertex_iterations_le_limit c hl hr
+        simp only
+        omega
+    | some tgt =>
+      simp only at h
+      cases he2 : c.edges[tgt]? with
+      | none => simp only [he2] at h; cases h
+      | some e2 =>
+        simp only [he2] at h
+        by_cases hst : source = tgt
+        · simp only [hst, if_true] at h; cases h; simp
+        · simp only [hst, if_false] at h
+          by_cases hadj : e1.dst = e2.src
+          · simp only [hadj, if_true] at h
+            split at h
+            · cases h
+            · split at h
+              · cases h
+              · cases h; simp
+          · simp only [hadj, if_false] at h
+            cases hr : c.runVertex e1.dst (some e2.src) sched with
+            | error k => simp only [hr] at h; cases h
+            | ok r' =>
+              simp only [hr] at h
+              have := runVertex_iterations_le_limit c hl hr
+              split at h
+              · cases h
+              · split at h
+                · cases h
+                · cases h
+                  simp only
+                  omega
+
+/-- Whenever the wrapper returns under limits its result is identical to the result under any
+termination model that lets pass everything the configured one lets pass — in particular the
+unlimited one (`combined []`): success is monotone in the limits. -/
+theorem edge_oriented_success_monotone_in_limits (c : Config α) (m₂ : TermM)
+    (hmono : ∀ sz it, c.term.test sz it = .ok () → m₂.test sz it = .ok ())
+    {source : Nat} {target : Option Nat} {sched : List Nat} {r : AlgResult α}
+    (h : c.runEdge source target sched = .ok r) :
+    ({ c with term := m₂ } : Config α).runEdge source target sched = .ok r := by
+  have hv : ∀ s t r', c.runVertex s t sched = .ok r' →
+      ({ c with term := m₂ } : Config α).runVertex s t sched = .ok r' :=
+    fun s t r' h' => config_runVertex_mono c m₂ hmono h'
+  unfold Config.runEdge at h ⊢
+  simp only at h ⊢
+  cases he : c.edges[source]? with
+  | none => simp only [he] at h; cases h
+  | some e1 =>
+    simp only [he] at h ⊢
+    cases target with
+    | none =>
+      simp only at h ⊢
+      cases hr : c.runVertex e1.dst none sched with
+      | error k => simp only [hr] at h; cases h
+      | ok r' =>
+        simp only [hr] at h
+        rw [hv _ _ _ hr]
+        exact h
+    | some tgt =>
+      simp only at h ⊢
+      cases he2 : c.edges[tgt]? with
+      | none => simp only [he2] at h; cases h
+      | some e2 =>
+        simp only [he2] at h ⊢
+        by_cases hst : source = tgt
+        · simp only [hst, if_true] at h ⊢; exact h
+        · simp only [hst, if_false] at h ⊢
+          by_cases hadj : e1.dst = e2.src
+          · simp only [hadj, if_true] at h ⊢
+            exact h
+          · simp only [hadj, if_false] at h ⊢
+            cases hr : c.runVertex e1.dst (some e2.src) sched with
+            | error k => simp only [hr] at h; cases h
+            | ok r' =>
+              simp only [hr] at h
+              rw [hv _ _ _ hr]
+              exact h
+
+/-- the limited result is the unlimited result -/
+theorem edge_oriented_limited_result_is_unlimited_result (c : Config α)
+    {source : Nat} {target : Option Nat} {sched : List Nat} {r : AlgResult α}
+    (h : c.runEdge source target sched = .ok r) :
+    ({ c with term := .combined [] } : Config α).runEdge source target sched = .ok r :=
+  edge_oriented_success_monotone_in_limits c (.combined [])
+    (fun sz it _ => combined_nil_test sz it) h
+
+omit [Field α] [LinearOrder α] [IsStrictOrderedRing α] [Lit α] [LawfulLit α] in
+/-- the wrapper's route fix-up fails only where one application fails -/
+theorem fixAll_error_internal (fix : List (Branch α) → Except ErrKind (List (Branch α)))
+    (hfix : ∀ rt k, fix rt = .error k → k = .internal) :
+    ∀ (rts : List (List (Branch α))) (k : ErrKind),
+      Config.runEdge.fixAll fix rts = .error k → k = .internal
+  | [], k, h => by simp [Config.runEdge.fixAll] at h
+  | rt :: rest, k, h => by
+    simp only [Config.runEdge.fixAll] at h
+    cases hfx : fix rt with
+    | error k' =>
+      simp only [hfx] at h
+      cases h
+      exact hfix _ _ hfx
+    | ok a =>
+      cases hfa : Config.runEdge.fixAll fix rest with
+      | error k' =>
+        simp only [hfx, hfa] at h
+        cases h
+        exact fixAll_error_internal fix hfix rest _ hfa
+      | ok b => simp only [hfx, hfa] at h; cases h
+
+/-- A `terminated` outcome of the wrapper is the `terminated` outcome of its inner search, handed on
+unchanged (so it names the limits that fired, `terminated_names_fired_limits`): the wrapper never
+turns a limit hit into a route, a tree or "no path", and has no limit of its own. -/
+theorem edge_oriented_terminated_from_search (c : Config α) {source : Nat} {target : Option Nat}
+    {sched : List Nat} {ks : List TermKind}
+    (h : c.runEdge source target sched = .error (.terminated ks)) :
+    ∃ s t, c.runVertex s t sched = .error (.terminated ks) := by
+  have hC := config_components_not_terminated ({ c with reverse := false } : Config α)
+  unfold Config.runEdge at h
+  simp only at h
+  cases he : c.edges[source]? with
+  | none => simp only [he] at h; cases h
+  | some e1 =>
+    simp only [he] at h
+    cases target with
+    | none =>
+      simp only at h
+      cases hr : c.runVertex e1.dst none sched with
+      | error k => simp only [hr] at h; cases h; exact ⟨_, _, hr⟩
+      | ok r' => simp only [hr] at h; cases h
+    | some tgt =>
+      simp only at h
+      cases he2 : c.edges[tgt]? with
+      | none => simp only [he2] at h; cases h
+      | some e2 =>
+        simp only [he2] at h
+        by_cases hst : source = tgt
+        · simp only [hst, if_true] at h; cases h
+        · simp only [hst, if_false] at h
+          by_cases hadj : e1.dst = e2.src
+          · simp only [hadj, if_true] at h
+            split at h
+            · rename_i k hk
+              cases h
+              exact absurd hk (hC.trav source none (initialState c.feats) ks)
+            · rename_i ac1 tc1 st1 _
+              split at h
+              · rename_i k hk
+                cases h
+                exact absurd hk (hC.trav tgt (some source) st1 ks)
+              · cases h
+          · simp only [hadj, if_false] at h
+            cases hr : c.runVertex e1.dst (some e2.src) sched with
+            | error k => simp only [hr] at h; cases h; exact ⟨_, _, hr⟩
+            | ok r' =>
+              simp only [hr] at h
+              exfalso
+              split at h
+              · cases h
+              · split at h
+                · rename_i k hk
+                  cases h
+                  have hfix := fixAll_error_internal _ (fun rt k' hf => by
+                    split at hf
+                    · cases hf; rfl
+                    · cases hf) _ _ hk
+                  cases hfix
+                · cases h
+
+end
+
+/-! ### The search ends by itself: schedule existence and termination without any limit
+
+Every other search theorem speaks about a pop schedule that is given and accepted.  Here: such
+schedules exist, and a search under the Dijkstra discipline ends after at most |V| expansions
+whatever limit is or is not configured.  `Ended r` (`Proofs/SearchTermination.lean`): `r` is a result,
+"no path", the explicit `terminated` (or the frequency-0 panic), or the error of a component model —
+the ways the code ends; the model's other two outcomes are the replay errors `scheduleExhausted`
+("accepted so far, the loop wants another pop") and `badSchedule`. -/
+
+section
+open SearchLimits SearchTermination
+variable {α : Type} [Field α] [LinearOrder α] [IsStrictOrderedRing α] [Lit α] [LawfulLit α]
+
+/-- PROGRESS.  At every loop head a run can reach — any configuration, weight factor, schedule so
+far — a non-empty frontier has an entry of minimal priority: some pop is accepted, the search is
+never stuck. -/
+theorem search_never_stuck (c : Config α) {source : Nat} {target : Option Nat} {pre : List Nat}
+    {f0 : α} {h : SState α} (hr : Reach c.inst source target pre (initState source f0) h)
+    (hne : h.queue.isEmpty = false) : ∃ v, popOk h.queue v = true :=
+  progress hr hne
+
+/-- the outcome `scheduleExhausted` of the model means exactly: every scheduled pop was accepted and
+completed a turn, and the loop is not finished (limit test passed, frontier not empty) -/
+theorem exhausted_means_accepted_unfinished (c : Config α) {source : Nat} {target : Option Nat}
+    (sched : List Nat) (s : SState α) :
+    runLoop c.inst source target sched s = .error .scheduleExhausted ↔
+      ∃ h, Reach c.inst source target sched s h ∧ c.term.test h.solSize h.iters = .ok () ∧
+        h.queue.isEmpty = false :=
+  exhausted_iff_reach (config_noSchedErr c) sched s
+
+/-- TERMINATION, Dijkstra (`weight_factor = 0`), no limit needed.  Any traversal, access (turn
+delays), cost, frontier (turn restrictions) and termination model, forward or reverse, with or
+without destination; adjacency consistent with the edge list, all vertex ids below `c.nV`.
+(1) There is a schedule of at most `|V| + 1` pops on which the search ends the way the code ends.
+(2) Every accepted, unfinished schedule — whatever tie-breaking produced it — has at most `|V|`
+pops and extends to a schedule of at most `|V| + 1` pops on which the search ends.
+(3) A returned result performed at most `|V|` expansions. -/
+theorem dijkstra_search_terminates (c : Config α) (hadj : c.AdjConsistent) (hwf : c.wf = some 0)
+    {source : Nat} (hsrc : source < c.nV) (hV : c.VerticesBelow c.nV) (target : Option Nat) :
+    (∃ sched, sched.length ≤ c.nV + 1 ∧ Ended (c.runVertex source target sched)) ∧
+    (∀ pre, c.runVertex source target pre = .error .scheduleExhausted →
+      pre.length ≤ c.nV ∧ ∃ ext, (pre ++ ext).length ≤ c.nV + 1 ∧
+        Ended (c.runVertex source target (pre ++ ext))) ∧
+    ∀ sched r, c.runVertex source target sched = .ok r → r.iterations ≤ c.nV :=
+  config_dijkstra_terminates c hadj hwf hsrc hV target
+
+/-- the same for a search without destination, any weight factor (the loop then adds `Cost::ZERO`
+as estimate) -/
+theorem tree_search_terminates (c : Config α) (hadj : c.AdjConsistent)
+    {source : Nat} (hsrc : source < c.nV) (hV : c.VerticesBelow c.nV) :
+    (∃ sched, sched.length ≤ c.nV + 1 ∧ Ended (c.runVertex source none sched)) ∧
+    (∀ pre, c.runVertex source none pre = .error .scheduleExhausted →
+      pre.length ≤ c.nV ∧ ∃ ext, (pre ++ ext).length ≤ c.nV + 1 ∧
+        Ended (c.runVertex source none (pre ++ ext))) ∧
+    ∀ sched r, c.runVertex source none sched = .ok r → r.iterations ≤ c.nV :=
+  config_tree_search_terminates c hadj hsrc hV
+
+/-- the same for A\* whenever the estimate is a consistent function `H` of the vertex
+(`SearchDiscipline.Heur`: along every accepted traversal it drops by at most the cost charged) -/
+theorem consistent_astar_search_terminates (c : Config α) (hadj : c.AdjConsistent) {H : Nat → α}
+    {source : Nat} (hsrc : source < c.nV) (hV : c.VerticesBelow c.nV) {target : Option Nat}
+    (hH : SearchDiscipline.Heur c.inst target.isSome H) :
+    (∃ sched, sched.length ≤ c.nV + 1 ∧ Ended (c.runVertex source target sched)) ∧
+    (∀ pre, c.runVertex source target pre = .error .scheduleExhausted →
+      pre.length ≤ c.nV ∧ ∃ ext, (pre ++ ext).length ≤ c.nV + 1 ∧
+        Ended (c.runVertex source target (pre ++ ext))) ∧
+    ∀ sched r, c.runVertex source target sched = .ok r → r.iterations ≤ c.nV :=
+  config_terminates_of_heur c hadj hsrc hV hH
+
+/-- … which holds of the configuration's own estimate under the premises of C02's
+`estimate_admissible`: distance model on a metrically consistent great-circle table, weight factor
+in `[0, 1]` … -/
+theorem astar_distance_search_terminates (c : Config α) (h : c.EdgeLocal) {du : DistanceUnit}
+    {t : Nat} (M : c.DistanceMetric du t) {source : Nat} (hsrc : source < c.nV)
+    (hV : c.VerticesBelow c.nV) :
+    (∃ sched, sched.length ≤ c.nV + 1 ∧ Ended (c.runVertex source (some t) sched)) ∧
+    (∀ pre, c.runVertex source (some t) pre = .error .scheduleExhausted →
+      pre.length ≤ c.nV ∧ ∃ ext, (pre ++ ext).length ≤ c.nV + 1 ∧
+        Ended (c.runVertex source (some t) (pre ++ ext))) ∧
+    ∀ sched r, c.runVertex source (some t) sched = .ok r → r.iterations ≤ c.nV :=
+  config_astar_distance_terminates c h M hsrc hV
+
+/-- … and speed-table model (`Config.SpeedMetric`) -/
+theorem astar_speed_search_terminates (c : Config α) (h : c.EdgeLocal)
+    {su : SpeedUnit} {du : DistanceUnit} {tu : TimeUnit} {ms : α} {table : List α} {t : Nat}
+    (M : c.SpeedMetric su du tu ms table t) {source : Nat} (hsrc : source < c.nV)
+    (hV : c.VerticesBelow c.nV) :
+    (∃ sched, sched.length ≤ c.nV + 1 ∧ Ended (c.runVertex source (some t) sched)) ∧
+    (∀ pre, c.runVertex source (some t) pre = .error .scheduleExhausted →
+      pre.length ≤ c.nV ∧ ∃ ext, (pre ++ ext).length ≤ c.nV + 1 ∧
+        Ended (c.runVertex source (some t) (pre ++ ext))) ∧
+    ∀ sched r, c.runVertex source (some t) sched = .ok r → r.iterations ≤ c.nV :=
+  config_astar_speed_terminates c h M hsrc hV
+
+/-- TERMINATION, general A\* (any weight factor, any estimate — inconsistent, above 1 — so vertices may
+be re-opened; any traversal, access, cost, frontier and termination model): the search still ends by
+itself, because every charged cost is strictly positive (C07).  `W = walks c.inst source c.nV` is the
+finite list of walks of fewer than `|V|` edges from the origin along the adjacency lists; every label
+the loop writes is the replayed cost of a vertex-simple one of them and a label only improves, so:
+(1) some schedule of at most `|W| + 2` pops ends the way the code ends; (2) every accepted, unfinished
+schedule has at most `|W| + 1` pops and extends to one of at most `|W| + 2` pops that ends; (3) a
+returned result performed at most `|W| + 1` expansions; (4) `|W| ≤ Σ_{k<|V|} D^k` for a degree bound
+`D`.  This bound is exponential in `|V|`: it proves termination, it does not bound the work in any
+useful way — for such searches the configured iteration limit (`iterations_le_limit`) is the only
+practical bound, and a search under the Dijkstra discipline needs at most `|V|` expansions
+(`dijkstra_search_terminates`). -/
+theorem astar_search_terminates (c : Config α) (hadj : c.AdjConsistent)
+    {source : Nat} (hsrc : source < c.nV) (hV : c.VerticesBelow c.nV) (target : Option Nat) :
+    (∃ sched, sched.length ≤ (walks c.inst source c.nV).length + 2 ∧
+      Ended (c.runVertex source target sched)) ∧
+    (∀ pre, c.runVertex source target pre = .error .scheduleExhausted →
+      pre.length ≤ (walks c.inst source c.nV).length + 1 ∧
+      ∃ ext, (pre ++ ext).length ≤ (walks c.inst source c.nV).length + 2 ∧
+        Ended (c.runVertex source target (pre ++ ext))) ∧
+    (∀ sched r, c.runVertex source target sched = .ok r →
+      r.iterations ≤ (walks c.inst source c.nV).length + 1) ∧
+    ∀ D, (∀ v, (c.inst.incident v).length ≤ D) →
+      (walks c.inst source c.nV).length ≤ ((List.range c.nV).map (fun k => D ^ k)).sum := by
+  obtain ⟨h1, h2, h3⟩ := config_terminates_general c hadj hsrc hV target
+  exact ⟨h1, h2, h3, fun D hD => walks_length_le hD source c.nV⟩
+
+end
+
+/-! Non-vacuity: `exC` (five vertices, Dijkstra, a cycle, self loops, an isolated vertex) meets the
+premises; the accepted schedule `[0, 1, 2, 3]` of its run to vertex 3 has 4 ≤ 5 + 1 pops, and the
+unfinished schedule `[0, 1]` is of the kind clause (2) extends. -/
+section
+open ConfigUniform.Example SearchTermination
+
+example : exC.VerticesBelow exC.nV := by decide
+
+example : (∃ sched, sched.length ≤ 6 ∧ Ended (exC.runVertex 0 (some 3) sched)) ∧
+    (∀ pre, exC.runVertex 0 (some 3) pre = .error .scheduleExhausted →
+      pre.length ≤ 5 ∧ ∃ ext, (pre ++ ext).length ≤ 6 ∧ Ended (exC.runVertex 0 (some 3) (pre ++ ext))) ∧
+    ∀ sched r, exC.runVertex 0 (some 3) sched = .ok r → r.iterations ≤ 5 :=
+  dijkstra_search_terminates exC exC_edgeLocal.adj rfl (by decide) (by decide) (some 3)
+
+example : ConfigUniform.Example.errOf (exC.runVertex 0 (some 3) [0, 1]) = some .scheduleExhausted := by
+  decide +kernel
+
+/-- the general theorem on `exA` (weight factor one, a non-zero estimate) -/
+example : ∃ sched, Ended (exA.runVertex 0 (some 3) sched) :=
+  let ⟨⟨sched, _, h⟩, _⟩ := astar_search_terminates exA exA_edgeLocal.adj (source := 0) (by decide)
+    (by decide) (some 3)
+  ⟨sched, h⟩
+
+end
+
+/-! Non-vacuity of the size clause and of the edge-oriented section, on `exC` (degree at most 3):
+under a size limit of 1 the run to vertex 3 is stopped with `terminated [size]` after the second
+expansion left a tree of 3 = 1 + 2 entries; the edge-oriented query from edge 0 to edge 4 under
+`iterations` limit 100 reports 2 + 2 iterations; the adjacent query from edge 0 to edge 1 returns
+with `iterations = 1` even under `iterations` limit 0. -/
+section
+open ConfigUniform.Example SearchTermination
+
+def iterationsOf (r : Except ErrKind (AlgResult ℚ)) : Option Nat :=
+  match r with
+  | .ok res => some res.iterations
+  | .error _ => none
+
+example : ∀ v, (exC.inst.incident v).length ≤ 3 := by
+  intro v
+  match v with
+  | 0 | 1 | 2 | 3 => decide
+  | n + 4 => simp [Config.inst, exC]
+
+example : ConfigUniform.Example.errOf (({ exC with term := .size 1 } : Config ℚ).runVertex 0 (some 3) [0, 1, 2, 3])
+    = some (.terminated [.size]) := by decide +kernel
+example : iterationsOf (exC.runEdge 0 (some 4) [1, 2, 3]) = some 4 := by decide +kernel
+example : iterationsOf (({ exC with term := .iters 0 } : Config ℚ).runEdge 0 (some 1) []) = some 1 := by
+  decide +kernel
+example : ConfigUniform.Example.errOf (({ exC with term := .iters 1 } : Config ℚ).runEdge 0 (some 4) [1, 2, 3])
+    = some (.terminated [.iterations]) := by decide +kernel
 
 end
 
